@@ -132,13 +132,15 @@ impl Rng {
     /// Ledger jump sizes: mostly small, sometimes beyond every TTL a contract is likely to set
     /// for temporary data (17 > the 16-ledger minimum; 1.3 M > 60 days of ledgers).
     pub fn ledger_jump(&mut self) -> u32 {
-        match self.below(10) {
-            0..=3 => 1,
-            4 | 5 => 17,
-            6 => 100,
-            7 => 5_000,
-            8 => 120_000,
-            _ => 1_300_000,
+        match self.below(20) {
+            0..=7 => 1,
+            8..=11 => 17,
+            12 | 13 => 100,
+            14 | 15 => 5_000,
+            16 | 17 => 120_000,
+            18 => 1_300_000,
+            // beyond 120 days of ledgers (the harness's budget allows this once per universe)
+            _ => 2_500_000,
         }
     }
 }
